@@ -23,6 +23,7 @@ import (
 	"github.com/meshplus/bitxhub-model/constant"
 	"github.com/meshplus/bitxhub-model/pb"
 	"github.com/meshplus/bitxhub/internal/executor/contracts"
+	"github.com/meshplus/bitxhub/pkg/utils"
 )
 
 // ---------------------------------------------------------------------------------------------
@@ -593,6 +594,38 @@ func (e *execEngine) buildTx(n *node, t []string) (pb.Transaction, bool, error) 
 			proof = []byte("proof-x")
 			ibtp.Proof = proofHash([]byte("other"))
 		default:
+			if strings.HasPrefix(t[8], "msig") {
+				// an IBTP relayed by another BitXHub: the proof is a BxhProof with signatures of that hub's validators
+				// (val-1, val-2, ...) over the IBTP and the status it reports
+				k, err := strconv.Atoi(t[8][4:])
+				if err != nil {
+					return nil, false, fmt.Errorf("bad proof kind")
+				}
+				st := pb.TransactionStatus_BEGIN
+				switch ibtp.Type {
+				case pb.IBTP_RECEIPT_SUCCESS:
+					st = pb.TransactionStatus_SUCCESS
+				case pb.IBTP_RECEIPT_FAILURE:
+					st = pb.TransactionStatus_FAILURE
+				case pb.IBTP_RECEIPT_ROLLBACK:
+					st = pb.TransactionStatus_ROLLBACK
+				}
+				digest, err := utils.EncodePackedAndHash(ibtp, st)
+				if err != nil {
+					return nil, false, err
+				}
+				bp := &pb.BxhProof{TxStatus: st}
+				for i := 1; i <= k; i++ {
+					sg, err := acct(fmt.Sprintf("val-%d", i)).priv.Sign(digest[:])
+					if err != nil {
+						return nil, false, err
+					}
+					bp.MultiSign = append(bp.MultiSign, sg)
+				}
+				proof, _ = bp.Marshal()
+				ibtp.Proof = proofHash(proof)
+				return n.ibtpTx(t[1], ibtp, proof), true, nil
+			}
 			return nil, false, fmt.Errorf("bad proof kind")
 		}
 		return n.ibtpTx(t[1], ibtp, proof), true, nil
